@@ -208,6 +208,10 @@ NEEDS = {
     "C17-r5-2": "connect a sink, clone the output, let the model send, connect another sink through the idle clone, send again (epoch from the local cache)",
     "C18-r5-1": "tolerance set, step_until ending on a time with no event, clock lag exactly equal to the tolerance (`>` became `>=` on the final jump only)",
     "C18-r5-2": "over-tolerance lag at a time with events, caller continues after the OutOfSync error (is_terminated = false: the refused time's actions run at the next call)",
+    "C19-r5-1": "multi-threaded: a model panic on another worker makes the step fail while worker #0 is still inside a long handler, then drop (drain(1..): worker #0 not joined)",
+    "C19-r5-2": "a task scheduled but not yet run when the executor cancels it: tasks waking one another during drop, or a failed simulation with queued tasks (token reference never released: task allocation leaked)",
+    "C20-r5-1": "a pull between two equal-key inserts, the queue having been longer when the older one went in (epoch taken from heap.len())",
+    "C20-r5-2": "IndexedPriorityQueue::peek after a slab slot freed by pull/extract was reused (slab indexed with key.epoch instead of slab_idx)",
     "C19-2": "output with >= 2 connections, a full target mailbox, simulation dropped while the broadcast is pending (ManuallyDrop not released)",
 }
 
